@@ -2,8 +2,8 @@
 SPEC = {
     "tsan": True,
     "ldflags": ["-Wl,--wrap=_Znam", "-Wl,--wrap=_Znwm"],      # operator new[] / new called from the harness object (string_theory is header-only) go through the per-thread fault hook
-    "quick": {"rc_cases": 4000, "rc_procs": 10, "enum": False},
-    "thorough": {"rc_cases": 6000, "rc_procs": 8, "enum": False, "fuzz_secs": 0},
+    "quick": {"rc_cases": 4000, "rc_procs": 10, "enum": True, "enum_shards": 8},
+    "thorough": {"rc_cases": 6000, "rc_procs": 8, "enum": True, "enum_shards": 16, "fuzz_secs": 0},
     "assumptions": [
         "ThreadSanitizer's happens-before analysis reports unsynchronised conflicting accesses in instrumented code (all of string_theory is header code compiled into the harness) even when they do not physically overlap in the observed schedule",
         "code inside uninstrumented libc/libstdc++ is seen only through TSan's interceptors; hidden state there (e.g. strtok's) is caught only through the result digests, which needs a real overlap in some round",
